@@ -119,6 +119,11 @@ class Ctx:
             module, func = str(fn), "-"
         if construct is None:
             construct = norm_stmt(node) if node is not None else "<missing>"
+        inl = getattr(node, "_inl", None)
+        if inl is not None and isinstance(fn, FunctionInfo):
+            # the statement was inlined from a helper (A9): report its true source location
+            module = inl[0]
+            message = f"{message} [in helper {inl[1].split(':')[-1]}, analysed inlined into {fn.short}]"
         f = Finding(self.prop, r.id, module, func, construct, message, getattr(node, "lineno", None), witness or [])
         if f.key not in {x.key for x in self.findings}:
             self.findings.append(f)
